@@ -5,7 +5,7 @@ import itertools
 
 import numpy as np
 
-from .. import gen, ref
+from .. import gen, hcontracts, ref
 from ..core import FAILED
 
 PREDICATES = ["is_hermitian", "is_anti_hermitian", "is_symmetric", "is_normal", "is_unitary", "is_pseudo_unitary", "is_pseudo_hermitian",
@@ -14,7 +14,9 @@ PREDICATES = ["is_hermitian", "is_anti_hermitian", "is_symmetric", "is_normal", 
               "is_linearly_independent", "is_totally_positive", "is_pure", "is_mixed", "is_ensemble", "is_mutually_orthogonal", "is_mutually_unbiased_basis",
               "is_unextendible_product_basis"]
 DECIDING = ["pred:" + p for p in PREDICATES] + ["O2:vec-unvec", "O2:vec(AXB)", "O2:tensor", "O2:gram-round-trip", "O2:to_density_matrix", "O2:commutant",
-                                                "O2:majorizes", "O2:spark", "O2:kp_norm", "O2:trace_norm"]
+                                                "O2:majorizes", "O2:spark", "O2:kp_norm", "O2:trace_norm"] + [
+    "contract:" + n for n in ("vec", "unvec", "tensor", "to_density_matrix", "vectors_to_gram_matrix", "trace_norm", "is_hermitian", "is_identity",
+                              "is_unitary", "is_positive_semidefinite", "is_density")]
 RULE = ("for every predicate: matrices built to have the property exactly (sizes 1..6, real and complex), the same matrices with one defining equation broken by a "
         "margin delta in [1e-3, 1], and images under property-preserving transformations (unitary conjugation, permutation similarity, ...); helper identities on "
         "random conformable operands; signature (predicate, class, size, field); non-trivial = negatives and transformed positives; plus tolerance-rule cases at scales "
@@ -38,9 +40,20 @@ def cases(tier):
     for r in range(60 if tier == "quick" else 12000):
         out.append(("tolrule", r))
     for h in ["vec", "tensor", "gram", "todm", "commutant", "majorizes", "spark", "norms"]:
-        for r in range(20 if tier == "quick" else 4000):
+        for r in range((48 if h == "spark" else 20) if tier == "quick" else 4000):
             out.append(("helper", h, r))
+    for r in range(48 if tier == "quick" else 3000):
+        out.append(("internal", r))
+    if tier == "thorough":
+        out.append(("suite", 0))
     return out
+
+
+THOROUGH_REPEAT_SKIP = ("suite",)
+
+
+def setup(ctx):
+    hcontracts.install(ctx)
 
 
 def run(ctx, spec, rng):
@@ -48,8 +61,76 @@ def run(ctx, spec, rng):
         globals()["_p_" + spec[1]](ctx, spec[2], rng)
     elif spec[0] == "tolrule":
         _run_tolrule(ctx, spec[1], rng)
+    elif spec[0] == "internal":
+        _run_internal(ctx, spec[1], rng)
+    elif spec[0] == "suite":
+        from ..suiterun import run_suite_under_contract
+
+        run_suite_under_contract(ctx, hcontracts.HELPER_CONTRACTS, "suite-under-contract")
     else:
         globals()["_h_" + spec[1]](ctx, spec[2], rng)
+
+
+# ------------------------------------------------------------------------------------------------ internal calls of the helpers
+def _run_internal(ctx, r, rng):
+    """Drive library functions of other packages that call the helpers internally; the helper contracts (module hcontracts) decide every such call.
+
+    Nothing is asserted about the outer functions here (their own properties do that); they only supply realistic internal arguments."""
+    from toqito.channel_ops import apply_channel, choi_to_kraus, kraus_to_choi, natural_representation
+    from toqito.channel_props import is_completely_positive, is_trace_preserving, is_unital
+    from toqito.matrices import pauli
+    from toqito.measurement_props import is_povm
+    from toqito.perms import permute_systems
+    from toqito.state_metrics import fidelity, helstrom_holevo, trace_distance
+    from toqito.state_props import is_ensemble, is_ppt, l1_norm_coherence, negativity, purity, von_neumann_entropy
+    from toqito.states import gen_bell
+
+    cplx = bool(r % 2)
+    d = 2 + r % 3
+    kind = r % 8
+    if kind == 0:
+        a, b = int(rng.integers(2, 4)), int(rng.integers(2, 4))
+        kr = [gen.rmat(rng, (b, a), cplx) for _ in range(1 + r % 3)]
+        j = ctx.call(kraus_to_choi, kr)
+        if j is not FAILED:
+            ctx.call(choi_to_kraus, j, dim=[a, b] if a != b else None)
+            ctx.call(apply_channel, gen.rmat(rng, (a, a), cplx), j if a == b else kr)
+        ctx.call(natural_representation, kr)
+    elif kind == 1:
+        rho, sigma = gen.density(rng, d, cplx=cplx), gen.density(rng, d, cplx=cplx)
+        for f in (fidelity, trace_distance, helstrom_holevo):
+            ctx.call(f, rho, sigma)
+        ctx.call(purity, rho)
+        ctx.call(von_neumann_entropy, rho)
+    elif kind == 2:
+        a, b = int(rng.integers(2, 4)), int(rng.integers(2, 4))
+        v = gen.unit(rng, a * b, cplx)
+        ctx.call(negativity, v, [a, b])
+        ctx.call(l1_norm_coherence, v)
+        ctx.call(is_ppt, gen.density(rng, a * b, cplx=cplx), 2, [a, b])
+    elif kind == 3:
+        u = gen.haar(rng, d, not cplx)
+        ctx.call(is_unital, [u])
+        ctx.call(is_completely_positive, [u, gen.rmat(rng, (d, d), cplx)])
+        ctx.call(is_trace_preserving, kraus_to_choi([u]))
+    elif kind == 4:
+        n = 2 + r % 2
+        ctx.call(pauli, [int(t) for t in rng.integers(0, 4, size=n)])
+        ctx.call(gen_bell, int(rng.integers(0, d)), int(rng.integers(0, d)), d)
+    elif kind == 5:
+        dims = [int(t) for t in rng.integers(2, 4, size=3)]
+        p = [int(t) for t in rng.permutation(3)]
+        ctx.call(permute_systems, gen.unit(rng, int(np.prod(dims)), cplx), p, dims)
+    elif kind == 6:
+        u = gen.haar(rng, d, not cplx)
+        povm = [np.outer(u[:, i], u[:, i].conj()) for i in range(d)]
+        ctx.call(is_povm, povm)
+        povm[0] = povm[0] - 0.2 * np.eye(d)
+        ctx.call(is_povm, povm)
+    else:
+        rhos = [gen.density(rng, d, cplx=cplx) for _ in range(3)]
+        w = rng.dirichlet(np.ones(3))
+        ctx.call(is_ensemble, [w[i] * rhos[i] for i in range(3)])
 
 
 # ------------------------------------------------------------------------------------------------ documented tolerance rule
@@ -960,7 +1041,7 @@ def _spark_model(mat):
     for k in range(1, min(m, n) + 1):
         for cols in itertools.combinations(range(n), k):
             s = np.linalg.svd(mat[:, cols], compute_uv=False)
-            if s.min() < 1e-10:
+            if s.min() < 1e-10 * max(s.max(), 1e-300):
                 return k, None
     return min(m, n) + 1, None
 
@@ -970,17 +1051,36 @@ def _h_spark(ctx, r, rng):
 
     m, n = int(rng.integers(2, 5)), int(rng.integers(2, 7))
     a = rng.integers(-2, 3, size=(m, n)).astype(float)
-    kind = r % 3
+    kind = r % 6
     if kind == 1 and n >= 3:
         a[:, -1] = a[:, 0] - 2 * a[:, 1]  # planted dependency among three columns
     if kind == 2:
         a = rng.normal(size=(m, n))  # generic: spark = min(m, n) + 1
-    # margins: every sub-matrix must be clearly full rank or clearly deficient
+    if kind == 3:
+        # two nearly parallel but independent columns (angle 1e-2 .. 1e-5, also up to a sign / phase): the library decides by matrix_rank, whose
+        # threshold is at rounding level, so these are independent by a margin of ten orders of magnitude
+        a = rng.normal(size=(m, n)) + (1j * rng.normal(size=(m, n)) if r % 2 else 0)
+        i, j = (int(t) for t in rng.choice(n, size=2, replace=False))
+        eps = [1e-2, 1e-3, 1e-4, 1e-5][(r // 6) % 4]
+        ph = [1.0, -1.0, 1j, np.exp(0.7j)][(r // 24) % 4] if np.iscomplexobj(a) else [1.0, -1.0][(r // 24) % 2]
+        w = rng.normal(size=m)
+        a[:, j] = ph * a[:, i] * float(rng.uniform(0.5, 2)) + eps * w * np.linalg.norm(a[:, i]) / np.linalg.norm(w)
+    if kind == 4:
+        # complex entries, dependency with Gaussian-integer coefficients (exact in floating point)
+        a = (rng.integers(-2, 3, size=(m, n)) + 1j * rng.integers(-2, 3, size=(m, n))).astype(complex)
+        if n >= 3:
+            a[:, -1] = (1 + 1j) * a[:, 0] - 2j * a[:, 1]
+    if kind == 5 and n >= 3:
+        # a triple that is dependent up to a perturbation of relative size 1e-3 .. 1e-5: independent by a wide margin for the rank rule
+        a = rng.normal(size=(m, n))
+        eps = [1e-3, 1e-4, 1e-5][(r // 6) % 3]
+        a[:, -1] = a[:, 0] - 2 * a[:, 1] + eps * rng.normal(size=m)
+    # margins: every sub-matrix must be clearly full rank or clearly deficient (the library's rank threshold is max(shape) * eps * sigma_max, about 1e-15)
     ok = True
     for k in range(1, min(m, n) + 1):
         for cols in itertools.combinations(range(n), k):
-            s = np.linalg.svd(a[:, cols], compute_uv=False).min()
-            if 1e-10 <= s < 1e-3:
+            sv = np.linalg.svd(a[:, cols], compute_uv=False)
+            if 1e-10 * sv.max() <= sv.min() < 1e-8 * sv.max():
                 ok = False
     if not ok:
         return ctx.note_inconclusive("spark-margin")
